@@ -1,4 +1,240 @@
-/- Model driver for C05 (stub: not built yet). -/
+/-
+Model driver for C05 / C07: trace validator for the Reader pipeline machine
+(Osmium/Model/Pipeline.lean).
+
+A scenario is `cfg k=v …`, then one item per line, then `end`; the driver prints ONE line per
+scenario: `accept <summary of the final model state>` or `reject …`.
+
+Item line: `<tid> <tag> <qid> <arg> <payload> <mode>`
+  mode `!`  LOGGED event: it was recorded by a hook at this position of the trace, so it is executed
+            at this position relative to all other logged events (hooks inside a critical section
+            of a queue are thereby replayed in the order of the critical sections);
+  mode `~`  UNLOGGED, eager: a step of the thread between its surrounding logged events that no
+            hook records (unlocked atomic load, thread-local step, promise.set_value, …): executed
+            as soon as it is the thread's turn and the step is enabled;
+  mode `^`  UNLOGGED, lazy: a store that other threads can observe as "not yet done" (m_done,
+            m_in_use): executed only when the thread's next logged event forces it or when another
+            thread cannot go on without it.
+  tag `sync` (mode `!`) is a position marker without a model step.
+Wild cards, filled in from the model state: payload `*` of pop-now / pop-wake (front element),
+of push-locked (the waiter notify_one picks), of p-get / c-get (the value of the future held);
+`push-size * full|space` reads the current size and requires it to be ≥ max / < max.
+
+The scheduler searches an interleaving of the per-thread item sequences that respects the
+windows above and in which EVERY item is an enabled transition of `Pipeline.step?`.  What it
+accepts is a run of the model (each fired item is a `step?` success from the previous state).
+-/
+import Osmium.Model.Pipeline
 import Driver.Common
 
-def main : IO Unit := pure ()
+open Osmium Osmium.Mon Osmium.Pipeline Osmium.Pipeline.Trace
+
+structure Item where
+  tid : Tid
+  tag : String
+  qid : Nat
+  arg : String
+  pl : String
+  mode : Char
+  lineNo : Nat
+  deriving Inhabited
+
+def Item.show (i : Item) : String := s!"line {i.lineNo}: {i.tid} {i.tag} {i.qid} {i.arg} {i.pl} {String.singleton i.mode}"
+
+/-- concrete event for an item in state `s` (wild cards filled in); none = malformed or a wild
+    card that cannot be filled now -/
+def resolve (c : Cfg Nat) (s : State Nat) (i : Item) : Option (Ev Nat) :=
+  let q := if i.qid = 1 then s.inq else s.outq
+  let qc := if i.qid = 1 then c.inqC else c.outqC
+  let wrap : QueueSM.Ev Nat → Ev Nat := if i.qid = 1 then .qi else .qo
+  if i.qid = 1 ∨ i.qid = 2 then
+    match i.tag with
+    | "push-size" =>
+      let n := q.items.length
+      if i.arg == "*" then
+        if (i.pl == "full") == decide (n ≥ qc.max) then some (wrap (.pushSize i.tid n)) else none
+      else i.arg.toNat?.map fun n => wrap (.pushSize i.tid n)
+    | "push-locked" =>
+      match i.arg.toNat? with
+      | some n =>
+        if i.pl == "*" then some (wrap (.pushLocked i.tid n ((q.waiters.find? (fun w => !w.2)).map (·.1))))
+        else (optNat i.pl).map fun w => wrap (.pushLocked i.tid n w)
+      | none => none
+    | "pop-now" =>
+      match i.arg.toNat? with
+      | some n => if i.pl == "*" then some (wrap (.popNow i.tid n q.items.head?)) else (parseItem i.pl).map fun r => wrap (.popNow i.tid n r)
+      | none => none
+    | "pop-wake" =>
+      match i.arg.toNat? with
+      | some n => if i.pl == "*" then some (wrap (.popWake i.tid n q.items.head?)) else (parseItem i.pl).map fun r => wrap (.popWake i.tid n r)
+      | none => none
+    | _ => (i.arg.toNat?).bind fun a => (parseQEv i.tid i.tag a i.pl).map wrap
+  else
+    match i.tag, i.pl with
+    | "p-get", "*" =>
+      match s.ppc with
+      | .got id => (s.fut id).map .pGet
+      | _ => none
+    | "c-get", "*" =>
+      match s.cpc with
+      | .readGot id => (s.fut id).map .cGet
+      | _ => none
+    | _, _ => (i.arg.toNat?).bind fun a => parseEv i.tid i.tag 0 a i.pl
+
+def tryFire (c : Cfg Nat) (s : State Nat) (i : Item) : Option (State Nat) :=
+  if i.tag == "sync" then some s else (resolve c s i).bind (step? c s)
+
+structure Sched where
+  s : State Nat
+  threads : List (Tid × List Item)
+  logOrder : List Tid          -- threads of the logged items not yet fired, in trace order
+  fired : Nat
+
+def Sched.head (st : Sched) (t : Tid) : Option Item :=
+  ((st.threads.find? (·.1 == t)).bind fun p => p.2.head?)
+
+def Sched.pop (st : Sched) (t : Tid) (s' : State Nat) : Sched :=
+  { st with s := s', fired := st.fired + 1,
+            threads := st.threads.map fun p => if p.1 == t then (p.1, p.2.tail) else p }
+
+/-- fire every eager unlogged head item that is enabled, until nothing changes -/
+partial def fireEagers (c : Cfg Nat) (st : Sched) : Sched :=
+  let rec pass (ts : List Tid) (st : Sched) (changed : Bool) : Sched × Bool :=
+    match ts with
+    | [] => (st, changed)
+    | t :: rest =>
+      match st.head t with
+      | some i =>
+        if i.mode == '~' then
+          match tryFire c st.s i with
+          | some s' => pass (t :: rest) (st.pop t s') true
+          | none => pass rest st changed
+        else pass rest st changed
+      | none => pass rest st changed
+  let (st', ch) := pass (st.threads.map (·.1)) st false
+  if ch then fireEagers c st' else st'
+
+mutual
+  /-- fire the head item of thread `t`, first helping it (unlogged items of other threads) if it
+      is not enabled -/
+  partial def fireHead (c : Cfg Nat) (depth : Nat) (excl : List Tid) (st : Sched) (t : Tid) : Except String Sched :=
+    match st.head t with
+    | none => .ok st
+    | some i =>
+      match tryFire c st.s i with
+      | some s' => .ok (fireEagers c (st.pop t s'))
+      | none =>
+        if depth = 0 then .error (i.show ++ " not enabled; " ++ diag st.s)
+        else
+          match unblock c depth t (t :: excl) st i ((st.threads.map (·.1)).filter fun u => !(t :: excl).contains u) with
+          | some st' =>
+            -- the helped item may already have been fired (it was eager and became enabled)
+            if ((st'.head t).map (·.lineNo)) != some i.lineNo then .ok st' else
+            match tryFire c st'.s i with
+            | some s' => .ok (fireEagers c (st'.pop t s'))
+            | none => .error (i.show ++ " not enabled; " ++ diag st.s)
+          | none => .error (i.show ++ " not enabled; " ++ diag st.s)
+
+  /-- find ONE other thread whose pending unlogged items, fired in order, make `i` enabled -/
+  partial def unblock (c : Cfg Nat) (depth : Nat) (t : Tid) (excl : List Tid) (st : Sched) (i : Item) (cands : List Tid) : Option Sched :=
+    match cands with
+    | [] => none
+    | u :: rest =>
+      let rec go (st' : Sched) (fuel : Nat) : Option Sched :=
+        if fuel = 0 then none else
+        match st'.head u with
+        | some j =>
+          if j.mode == '!' then none else
+          match fireHead c (depth - 1) excl st' u with
+          | .ok st'' =>
+            if ((st''.head t).map (·.lineNo)) != some i.lineNo then some st''
+            else if (tryFire c st''.s i).isSome then some st'' else go st'' (fuel - 1)
+          | .error _ => none
+        | none => none
+      match go st 64 with
+      | some r => some r
+      | none => unblock c depth t excl st i rest
+end
+
+partial def runSched (c : Cfg Nat) (st : Sched) : Except String Sched :=
+  let st := fireEagers c st
+  match st.logOrder with
+  | t :: rest =>
+    -- everything thread t has to do before its next logged item, then the logged item
+    let rec upTo (st : Sched) (fuel : Nat) : Except String Sched :=
+      if fuel = 0 then .error "fuel" else
+      match st.head t with
+      | none => .error s!"thread {t}: logged item missing"
+      | some i =>
+        match fireHead c 3 [] st t with
+        | .error e => .error e
+        | .ok st' => if i.mode == '!' then .ok st' else upTo st' (fuel - 1)
+    match upTo st 100000 with
+    | .error e => .error e
+    | .ok st' => runSched c { st' with logOrder := rest }
+  | [] =>
+    -- no logged item left: drain the unlogged tails
+    match st.threads.find? (fun p => !p.2.isEmpty) with
+    | none => .ok st
+    | some _ =>
+      let rec drain (ts : List Tid) (st : Sched) (progress : Bool) (err : String) : Except String Sched :=
+        match ts with
+        | [] => if progress then runSched c st else .error err
+        | t :: rest =>
+          match st.head t with
+          | none => drain rest st progress err
+          | some _ =>
+            match fireHead c 3 [] st t with
+            | .ok st' => drain rest st' true err
+            | .error e => drain rest st progress e
+      drain (st.threads.map (·.1)) st false "stuck"
+
+structure Accum where
+  cfg : Option (Cfg Nat) := none
+  items : List Item := []      -- reversed
+  bad : Option String := none
+  lineNo : Nat := 0
+
+def finish (a : Accum) : String :=
+  match a.bad, a.cfg with
+  | some b, _ => "reject " ++ b
+  | none, none => "reject no-cfg"
+  | none, some c =>
+    let items := a.items.reverse
+    let tids := (items.map (·.tid)).eraseDups
+    let threads := tids.map fun t => (t, items.filter (·.tid == t))
+    let logOrder := (items.filter (·.mode == '!')).map (·.tid)
+    match runSched c { s := init Nat, threads := threads, logOrder := logOrder, fired := 0 } with
+    | .ok st => s!"accept fired={st.fired} " ++ summary c st.s
+    | .error e => "reject " ++ e
+
+def stepLine (a : Accum) (line : String) : Accum × Option String :=
+  let a := { a with lineNo := a.lineNo + 1 }
+  match words line with
+  | "cfg" :: rest =>
+    match parseCfg rest with
+    | some c => ({ cfg := some c, lineNo := a.lineNo }, none)
+    | none => ({ bad := some "bad-cfg", lineNo := a.lineNo }, none)
+  | ["end"] => ({ lineNo := a.lineNo }, some (finish a))
+  | [t, tag, qid, arg, pl, mode] =>
+    match t.toNat?, qid.toNat?, mode.toList with
+    | some t, some qid, [m] =>
+      ({ a with items := { tid := t, tag := tag, qid := qid, arg := arg, pl := pl, mode := m, lineNo := a.lineNo } :: a.items }, none)
+    | _, _, _ => ({ a with bad := some s!"bad-line {a.lineNo}" }, none)
+  | [] => (a, none)
+  | _ => ({ a with bad := some s!"bad-line {a.lineNo}" }, none)
+
+partial def main : IO Unit := do
+  let stdin ← IO.getStdin
+  let stdout ← IO.getStdout
+  let rec go (a : Accum) : IO Unit := do
+    let line ← stdin.getLine
+    if line.isEmpty then
+      stdout.flush
+      return ()
+    let (a', out) := stepLine a line
+    match out with
+    | some o => stdout.putStrLn o
+    | none => pure ()
+    go a'
+  go {}
